@@ -451,6 +451,37 @@ def r6(ctx):
             ctx.check(ub is not None and ub * a["elsize"] <= 2 * MAXPDU + 256, "C04.R6", "vla:%s:%s" % (f.name, a.get("name", "")), a.loc(),
                       "size %s, upper bound %s bytes" % (vf.show(cnt), ub), key="C04.R6:%s" % f.name)
     ctx.floor("C04.R6", n, 3)
+    # ... and the constant length told to a formatter / receive / block copy that writes into a local array is not larger than the array
+    SINKS = {"lrtr_ip_addr_to_str": (1, 2), "lrtr_ipv4_addr_to_str": (1, 2), "lrtr_ipv6_addr_to_str": (1, 2), "snprintf": (0, 1), "vsnprintf": (0, 1),
+             "memcpy": (0, 2), "memset": (0, 2), "memmove": (0, 2), "strncpy": (0, 2), "inet_ntop": (2, 3), "tr_recv_all": (1, 2), "rtr_receive_pdu": (1, 2)}
+    m = 0
+    for f in [x for x in pdb.all_functions() if x.unit.startswith("rtrlib/")]:
+        for c in f.calls():
+            cal = c.callee or ""
+            key_ = "memcpy" if cal.startswith("llvm.memcpy") else ("memset" if cal.startswith("llvm.memset") else ("memmove" if cal.startswith("llvm.memmove") else cal))
+            if key_ not in SINKS:
+                continue
+            bi, li = SINKS[key_]
+            if len(c.args) <= max(bi, li):
+                continue
+            be, le = vf.expr(f, c.args[bi]), vf.expr(f, c.args[li])
+            r = vf.root_of(be)
+            if not (isinstance(r, tuple) and r[0] == "alloca" and le[0] == "c" and isinstance(le[1], int)):
+                continue
+            whole = be == r or (be[0] == "idx" and be[1] == r and be[2] == ("c", 0)) or (be[0] == "idx" and be[1][0] == "idx" and be[1][1] == r and be[2] == ("c", 0))
+            if not whole:
+                continue        # a field or an offset inside the object: the layout rules (C14.R7) and the callee's own bounds apply
+            a = f.insts[r[1]]
+            cnt = vf.expr(f, a["count"])
+            if cnt[0] != "c":
+                cnt = ("c", _upper(pdb, f, cnt)) if _upper(pdb, f, cnt) is not None else None
+            if cnt is None:
+                continue
+            size = cnt[1] * a["elsize"]
+            m += 1
+            ctx.check(le[1] <= size, "C04.R6", "%s:%s(%s)@%d" % (f.name, key_, a.get("name", "local"), c.line), c.loc(),
+                      "writes up to %d bytes into %s, which has %d" % (le[1], a.get("name", "a local array"), size), key="C04.R6:%s:%s:%s" % (f.name, key_, a.get("name", "")))
+    ctx.floor("C04.R6", m, 20)
 
 
 def r7_r8(ctx):
@@ -719,6 +750,8 @@ def r9(ctx, retsets):
                         return ["copy" if at_index and n_ok else "copy?"]
                     if inst.op == "call" and (inst.callee or "").startswith("rtr_send_error_pdu"):
                         return ["report"]
+                    if inst.op == "call" and inst.callee in ("lrtr_free", "free"):
+                        return ["free"]       # the store never releases anything: the caller owns (and frees) the array
                     return None
                 outs, fl = es.count_effects(fn, pdb, classify, retsets, oracle=oracle)
                 if not full and not alloc_ok:
